@@ -65,6 +65,9 @@ class Gen:
                     out.append((n, "enumerate", n.target.elts[1].id, n.target.elts[0].id))
                 elif isinstance(a0, ast.Subscript) and txt(a0.value) == self.stubs:
                     out.append((n, "enumerate-sliced", n.target.elts[1].id, n.target.elts[0].id))
+                elif (isinstance(a0, ast.Call) and txt(a0.func) in ("filter", "itertools.filterfalse", "filterfalse") and any(txt(x) == self.stubs for x in a0.args)) or \
+                        (isinstance(a0, (ast.GeneratorExp, ast.ListComp)) and a0.generators[0].ifs and txt(a0.generators[0].iter) == self.stubs):
+                    out.append((n, "enumerate-filtered", n.target.elts[1].id, n.target.elts[0].id))
             elif isinstance(it, ast.Subscript) and txt(it.value) == self.stubs and isinstance(n.target, ast.Name):
                 out.append((n, "sliced", n.target.id, None))
             elif isinstance(it, ast.Call) and txt(it.func) == "range" and len(it.args) == 1 and txt(it.args[0]) == f"len({self.stubs})" \
